@@ -8,6 +8,7 @@ use ast_grep_config::RuleConfig;
 use codespan_reporting::files::SimpleFile;
 
 use std::borrow::Cow;
+use std::collections::HashMap;
 use std::ops::Range;
 use std::path::{Path, PathBuf};
 
@@ -15,6 +16,10 @@ pub struct InteractivePrinter<P: Printer> {
   accept_all: bool,
   from_stdin: bool,
   committed_cnt: usize,
+  /// Diffs already confirmed for a file in this session.
+  /// One file can yield several payloads, e.g. html with embedded js/css documents.
+  /// They are all based on the same old source, so a later rewrite must keep the earlier diffs.
+  confirmed: HashMap<PathBuf, Vec<(Range<usize>, String)>>,
   inner: P,
 }
 
@@ -28,6 +33,7 @@ impl<P: Printer> InteractivePrinter<P> {
         from_stdin,
         inner,
         committed_cnt: 0,
+        confirmed: HashMap::new(),
       })
     }
   }
@@ -48,10 +54,11 @@ impl<P: Printer> InteractivePrinter<P> {
     utils::prompt(VIEW_PROMPT, "qe", Some('\n')).expect("cannot fail")
   }
 
-  fn rewrite_action(&self, diffs: Diffs<()>, path: &PathBuf) -> Result<()> {
+  fn rewrite_action(&mut self, diffs: Diffs<()>, path: &PathBuf) -> Result<()> {
     if diffs.contents.is_empty() {
       return Ok(());
     }
+    let diffs = self.merge_confirmed(diffs);
     let new_content = apply_rewrite(diffs);
     if self.from_stdin {
       println!("{new_content}");
@@ -59,6 +66,44 @@ impl<P: Printer> InteractivePrinter<P> {
     } else {
       std::fs::write(path, new_content).with_context(|| EC::WriteFile(path.clone()))
     }
+  }
+
+  /// Merge newly confirmed diffs with the diffs confirmed before for the same file,
+  /// so that diffs from other documents of the file are not lost in the rewrite.
+  fn merge_confirmed(&mut self, diffs: Diffs<()>) -> Diffs<()> {
+    let Diffs {
+      path,
+      old_source,
+      contents,
+    } = diffs;
+    let confirmed = self.confirmed.entry(path.clone()).or_default();
+    confirmed.extend(contents.into_iter().map(|d| (d.range, d.replacement)));
+    // confirmed diffs do not overlap, see process_diffs_interactive
+    confirmed.sort_by_key(|(range, _)| (range.start, range.end));
+    let contents = confirmed
+      .iter()
+      .map(|(range, replacement)| InteractiveDiff {
+        replacement: replacement.clone(),
+        range: range.clone(),
+        first_line: 0,
+        display: (),
+      })
+      .collect();
+    Diffs {
+      path,
+      old_source,
+      contents,
+    }
+  }
+
+  /// if the range overlaps with a confirmed diff from another document of the same file
+  fn overlaps_confirmed(&self, path: &Path, range: &Range<usize>) -> bool {
+    let Some(confirmed) = self.confirmed.get(path) else {
+      return false;
+    };
+    confirmed
+      .iter()
+      .any(|(r, _)| r.start < range.end && range.start < r.end)
   }
 
   fn process_highlights(&mut self, highlights: Highlights<P::Processed>) -> Result<()> {
@@ -257,7 +302,7 @@ fn process_diffs_interactive<P: Printer>(
   let mut end = 0;
   let path = diffs.path;
   for diff in diffs.contents {
-    if diff.range.start < end {
+    if diff.range.start < end || interactive.overlaps_confirmed(&path, &diff.range) {
       continue;
     }
     let to_confirm = InteractiveDiff {
